@@ -226,6 +226,7 @@ class Plain(val v: int) {}
 class Cmp {
   function <C: Ordered<C>> maxV(a: C, b: C): int = a.compare(b)
   function <C: Ordered<C>> maxOf(a: C, b: C): C = if a.compare(b) < 0 { b } else { a }
+  function <C: Ordered<C>> key(a: C): int = a.compare(a)
 }
 class Cell<T>(val content: T) { function <T> of(content: T): Cell<T> = Cell.init(content) }
 class Secret { private function hidden(): int = 1 }
@@ -249,6 +250,8 @@ GEN_FAULTS = {
     "bound_inferred": "Cmp.maxV(Plain.init(1), Plain.init(2))",
     "bound_explicit": "Cmp.maxV<Plain>(Plain.init(1), Plain.init(2))",
     "bound_result_used": "Cmp.maxOf(Plain.init(1), Plain.init(2)).v",
+    "bound_function_value_under_hint": "{ let g: (Plain) -> int = Cmp.key; g(Plain.init(1)) }",
+    "field_on_class_object": "Plain.v",
     "operand_type": '(1 + "a")',
     "unknown_member": "Plain.init(1).nope",
     "arity": "Helper.two(1)",
@@ -323,6 +326,12 @@ def generated_rejects():
 # declaration and must be accepted, so that the rejection is due to the fault and not to the surrounding program.
 DECL_MAIN = "class Main { function main(): unit = {  } }\n"
 DECL_FAULTS = {
+    "type_arguments_on_type_parameter": (
+        "class Util { function <T> f(x: T<int>, y: int): int = y }\n",
+        "class Util { function <T> f(x: T, y: int): int = y }\n"),
+    "type_arguments_on_type_parameter_in_return": (
+        "class Util { function <T> f(x: T): T<int> = x }\n",
+        "class Util { function <T> f(x: T): T = x }\n"),
     "interface_method_missing": (
         "interface I { method f(): int  method g(): int }\nclass C(val v: int) : I { method f(): int = this.v }\n",
         "interface I { method f(): int  method g(): int }\nclass C(val v: int) : I { method f(): int = this.v  method g(): int = 1 }\n"),
@@ -403,8 +412,8 @@ MOD_LIB = """class Foo(private val secret: int, val open: int) {
 }
 class Holder { function get(): Foo = Foo.make()  function both(): AllOpen = AllOpen.init(1, 2) }
 class AllOpen(val x: int, val y: int) {}
-private class Hidden { function f(): int = 1 }
-class Pub { function f(): int = Hidden.f() }
+private class Hidden(val code: int) { function f(): int = 1  method reveal(): int = this.code }
+class Pub { function f(): int = Hidden.f()  function open(): Hidden = Hidden.init(42)  function use(h: Hidden): int = h.reveal() }
 """
 MOD_MAIN = "class Main { function main(): unit = Process.println(Str.fromInt(U.peek())) }\n"
 MODULE_FAULTS = {
@@ -418,6 +427,13 @@ MODULE_FAULTS = {
                                            "import { Holder } from Lib;\nclass U { function peek(): int = { let { x, y } = Holder.both(); x + y } }\n"),
     "private_class_import": ("import { Hidden } from Lib;\nclass U { function peek(): int = Hidden.f() }\n",
                              "import { Pub } from Lib;\nclass U { function peek(): int = Pub.f() }\n"),
+    # an instance of a private class handed out by a public function: its members stay out of reach
+    "private_class_instance_method": ("import { Pub } from Lib;\nclass U { function peek(): int = Pub.open().reveal() }\n",
+                                      "import { Pub } from Lib;\nclass U { function peek(): int = Pub.use(Pub.open()) }\n"),
+    "private_class_instance_field": ("import { Pub } from Lib;\nclass U { function peek(): int = Pub.open().code }\n",
+                                     "import { Pub } from Lib;\nclass U { function peek(): int = Pub.use(Pub.open()) }\n"),
+    "private_class_instance_pattern": ("import { Pub } from Lib;\nclass U { function peek(): int = { let { code } = Pub.open(); code } }\n",
+                                       "import { Pub } from Lib;\nclass U { function peek(): int = Pub.use(Pub.open()) }\n"),
     # the accessing class has the same NAME as the class that owns the private member, but lives in another module
     "private_field_same_named_class": ("import { Holder } from Lib;\nclass Foo { function look(): int = Holder.get().secret }\nclass U { function peek(): int = Foo.look() }\n",
                                        "import { Holder } from Lib;\nclass Foo { function look(): int = Holder.get().open }\nclass U { function peek(): int = Foo.look() }\n"),
